@@ -90,3 +90,8 @@ package cniutil
 //@   loop 0 invariant forall i int :: 0 <= i && i < len(networkInfos) ==> networkInfos[i] != nil && networkInfos[i].IfName == savedIf[i]
 //@   loop 0 invariant !(cid in SavedIDs) && cmdArgs.ContainerID == cid && len(errorSet) == len(fails)
 //@   loop 0 decreases idx + 1
+
+// reading a network configuration from the conf dir (libcni file access, trusted)
+//@ func GetNetworkConfig trusted
+//@   modifies fresh elemsof(byte)
+//@ func NewNetworkInfo inline
